@@ -19,6 +19,7 @@ package config
 import (
 	"fmt"
 	"net/url"
+	"slices"
 	"strings"
 
 	"github.com/dadrus/heimdall/internal/x"
@@ -53,16 +54,26 @@ func (r QueryParamsRemover) RemoveFrom(value string) string {
 		return value
 	}
 
-	query, err := url.ParseQuery(value)
-	if err != nil {
-		return value
+	// The query is not parsed as a whole: a single malformed parameter (e.g. one with an invalid
+	// escape sequence or a semicolon) would otherwise let all parameters pass, including those
+	// which have to be removed. This way the remaining parameters are also kept as received.
+	pairs := strings.Split(value, "&")
+	kept := make([]string, 0, len(pairs))
+
+	for _, pair := range pairs {
+		key, _, _ := strings.Cut(pair, "=")
+
+		name, err := url.QueryUnescape(key)
+		if err != nil {
+			name = key
+		}
+
+		if !slices.Contains(r, name) {
+			kept = append(kept, pair)
+		}
 	}
 
-	for _, param := range r {
-		query.Del(param)
-	}
-
-	return query.Encode()
+	return strings.Join(kept, "&")
 }
 
 type URLRewriter struct {
